@@ -6,6 +6,7 @@ CONSTANTS
   MaxCol = 0
   MaxPause = 0
   MaxCkpt = 0
+  MaxCfg = 0
   GreedySets = {}
   LazyModes = {}
   WrongGroup = FALSE
